@@ -1,7 +1,7 @@
 (** C15 - every SIMD kernel equals its scalar definition at every ISA level.
     This file only restates lemmas proved in Simd/DispatchProofs.v and Simd/SimdProofs.v. *)
 From Coq Require Import List Bool.
-From Coq Require Import NArith.
+From Coq Require Import NArith Arith.
 From Carquet Require Import Base.Res Gen.Dispatch_gen Gen.Intrinsics_gen Simd.DispatchModel Simd.DispatchProofs.
 From Carquet Require Import Simd.Vec Simd.ScalarKernels Simd.SseKernels Simd.Avx2Kernels Simd.Avx512Kernels Simd.BssProofs Simd.SeqProofs.
 Import ListNotations.
